@@ -60,6 +60,7 @@ static struct {
 	int id, live, maxlive;
 } DL[8];
 static int NDL;
+static uint32_t seen_mask; // bit i: message "m<i>" was delivered (S2)
 
 static const char *
 evname(int ev)
@@ -192,6 +193,7 @@ static void
 ledger_reset(void)
 {
 	NEV = NPI = NDL = 0;
+	seen_mask       = 0;
 	for (int i = 0; i < 2; i++) {
 		closed_at[i]     = -1;
 		reject_left[i]   = 0;
@@ -285,6 +287,14 @@ drain(int si, char *last, size_t cap)
 		nng_pipe p  = nng_msg_get_pipe(m);
 		pinfo   *pi = pi_find(si, p.id, 0);
 		size_t   l  = nng_msg_len(m);
+		if (l >= 2 && ((char *) nng_msg_body(m))[0] == 'm') {
+			int k = atoi((char *) nng_msg_body(m) + 1);
+			if (k >= 0 && k < 32) {
+				if (seen_mask & (1u << k))
+					vs_fail("harness:s2", "message m%d delivered twice", k);
+				seen_mask |= 1u << k;
+			}
+		}
 		if (last && cap) {
 			if (l >= cap)
 				l = cap - 1;
@@ -408,7 +418,10 @@ run_s1(void *arg)
 	VH_OK(nng_socket_set_ms(b, NNG_OPT_RECONNMAXT, 10));
 	VH_OK(nng_listener_create(&s1_l, a, S1_URL));
 	VH_OK(nng_listener_start(s1_l, 0));
-	s1_use_dialer = (x->op == OP_DIALER_CLOSE);
+	// nng_dial() (create + start) only where the creation itself races with
+	// something (socket B being closed); otherwise the dialer exists already
+	// so that the window holds only the connect path
+	s1_use_dialer = (x->op != OP_CLOSE_B && x->op != OP_REJECT_A_CLOSE_B);
 	if (s1_use_dialer)
 		VH_OK(nng_dialer_create(&s1_d, b, S1_URL));
 	if (x->op == OP_REJECT_A_CLOSE_B)
@@ -476,6 +489,7 @@ run_s2(void *arg)
 		eagain++;
 	vs_settle();
 	vs_window(0);
+	int sent0 = sent;
 	if (drv != 0)
 		vs_fail("harness:setup", "inproc dial failed: %s", nng_strerror(drv));
 	got += drain(0, last, sizeof(last));
@@ -522,9 +536,12 @@ run_s2(void *arg)
 	char ha[80], hb[80];
 	ledger_summary(0, ha, sizeof(ha));
 	ledger_summary(1, hb, sizeof(hb));
-	vs_outcome("A[%s] B[%s]", ha, hb);
-	vs_log("%s k=%d sent=%d got=%d eagain=%d dt=%lld A[%s] B[%s]", PRN[x->proto],
-	    x->k, sent, got, eagain, (long long) dt, ha, hb);
+	vs_outcome("A[%s] B[%s] m0=%s", ha, hb,
+	    sent0 == 0           ? "refused"
+	        : (seen_mask & 1) ? "delivered"
+	                          : "lost");
+	vs_log("%s k=%d sent=%d got=%d eagain=%d dt=%lld A[%s] B[%s] seen=%x",
+	    PRN[x->proto], x->k, sent, got, eagain, (long long) dt, ha, hb, seen_mask);
 	vh_fini();
 }
 
@@ -600,8 +617,9 @@ run_s3(void *arg)
 	int                   nseed = vx_is_thorough() ? 4 : 3;
 	int                   seed  = vs_choose(VK_ENV, nseed);
 	int                   bound = x->m > x->M ? x->m : x->M;
-	int                   mode[3];
-	for (int i = 0; i < 3; i++)
+	int                   nloss = vx_is_thorough() ? 4 : 3;
+	int                   mode[4] = { 0, 0, 0, 0 };
+	for (int i = 0; i < nloss; i++)
 		mode[i] = vs_choose(VK_ENV, LM_N);
 	int endmode = vs_choose(VK_ENV, 3); // dialer close: connected / back-off / sock close
 	vs_random_seed = seeds[seed];
@@ -635,7 +653,7 @@ run_s3(void *arg)
 	int     maxdt = 0, dt = 0;
 	vp_rd  *rd = calloc(1, sizeof(*rd));
 	char    what[64];
-	for (int i = 0; i < 3; i++) {
+	for (int i = 0; i < nloss; i++) {
 		int64_t t_loss;
 		snprintf(what, sizeof(what), "loss %d (%s) m=%d M=%d", i + 1,
 		    LMN[mode[i]], x->m, x->M);
@@ -748,8 +766,9 @@ run_s3(void *arg)
 	// random stream), not the exact number
 	int bucket = bound ? (maxdt * 4) / (bound + 1) : 0;
 	vs_outcome("m=%d M=%d maxdelay-quartile=%d end=%d", x->m, x->M, bucket, endmode);
-	vs_log("m=%d M=%d seed=%d modes=%s,%s,%s end=%d maxdt=%d pipes=%d", x->m, x->M,
-	    seed, LMN[mode[0]], LMN[mode[1]], LMN[mode[2]], endmode, maxdt, NPI);
+	vs_log("m=%d M=%d seed=%d modes=%s,%s,%s%s%s end=%d maxdt=%d pipes=%d", x->m,
+	    x->M, seed, LMN[mode[0]], LMN[mode[1]], LMN[mode[2]], nloss > 3 ? "," : "",
+	    nloss > 3 ? LMN[mode[3]] : "", endmode, maxdt, NPI);
 	free(rd);
 	close(ls);
 	unlink(s3_path);
@@ -1066,14 +1085,19 @@ main(int argc, char **argv)
 	for (int i = 0; i < 3; i++)
 		explore(s4n[i], run_s4, &s4[i], 0, 0, 0, 0);
 
-	int p = T ? 2 : 1, sw = 2, t = 1, tot = T ? 3 : 2;
-	static s2arg s2[] = { { 0, 1 }, { 0, 2 }, { 1, 1 }, { 1, 2 } };
+	// Budgets.  Full = preempt 1 (quick) / 2 (thorough), switch 2, timer 1,
+	// at most 2 deviations per execution; the connect path over inproc has
+	// ~100-200 choice points per execution, so a third deviation level is
+	// out of reach (>= 500 k executions per scenario).  "Lite" = one deviation.
+	int p = T ? 2 : 1, sw = 2, t = 1, tot = 2;
+	static s2arg s2[] = { { 0, 1 }, { 1, 1 }, { 0, 2 }, { 1, 2 } };
 	for (int i = 0; i < 4; i++) {
+		int lite = !T && i >= 2;
 		snprintf(name, sizeof(name), "S2-reject-%s-k%d", PRN[s2[i].proto],
 		    s2[i].k);
 		if (vx_time_left() < 30)
 			break;
-		explore(name, run_s2, &s2[i], p, sw, t, tot);
+		explore(name, run_s2, &s2[i], p, sw, t, lite ? 1 : tot);
 	}
 	static s1arg s1[3 * OP_N];
 	int          n1 = 0;
@@ -1082,15 +1106,18 @@ main(int argc, char **argv)
 		for (int op = 0; op < OP_N; op++)
 			s1[n1++] = (s1arg){ pr, op };
 	for (int i = 0; i < n1; i++) {
+		// quick: the five basic operations on pair0 get the full budget,
+		// everything else one deviation
+		int lite = !T && (s1[i].proto != 0 || s1[i].op > OP_LISTENER_CLOSE);
 		snprintf(name, sizeof(name), "S1-%s-%s", PRN[s1[i].proto], OPN[s1[i].op]);
-		if (vx_time_left() < 30)
+		if (vx_time_left() < (T ? 120 : 20))
 			break;
-		explore(name, run_s1, &s1[i], p, sw, t, tot);
+		explore(name, run_s1, &s1[i], p, sw, t, lite ? 1 : tot);
 	}
 	vx_note("bounds",
 	    "S1/S2 budgets preempt=%d switch=%d timer=%d total=%d; S1 = 3 protocol "
 	    "pairs x %d racing operations; S2 k=1,2 x pair0,push/pull; S3 %d "
-	    "(min,max) configs x seeds x 4^3 loss modes x 3 end modes; S4 3 "
+	    "(min,max) configs x 3/4 seeds x 4^3 (4^4 thorough) loss modes x 3 end modes; S4 3 "
 	    "protocols x 7 x 8 failure modes x overlap",
 	    p, sw, t, tot, OP_N, ns3);
 	return vx_finish();
